@@ -19,7 +19,8 @@ EXPLANATION = (
     "point are allowed on RAW; (b) CARRY-INDEX - every dense output (a Series/DataFrame with one row per sample built in _predict / "
     "_transform_scores, and the result of sparse_to_dense) takes index= from the frame of the CURRENT argument, never from the "
     "training data or a fresh range; (c) NAME-FREE - no column of a user frame is selected by label (only positional access), so "
-    "column names cannot matter; (d) FLOAT-KERNEL - prefix-sum builders, kernels and score tables accumulate in float arrays, so "
+    "column names cannot matter; (e) AS-2D - as_2d_array turns a vector into one column (one row with vector_as_column=False), "
+    "returns a matrix unchanged and rejects more than two dimensions with ValueError; (d) FLOAT-KERNEL - prefix-sum builders, kernels and score tables accumulate in float arrays, so "
     "integer input is promoted before any division and float scores are never truncated into integer tables. NOT decided: pandas' "
     "own handling of PeriodIndex/DatetimeIndex inside the calls the library makes; integer overflow of X**2 for huge values."
 )
@@ -80,6 +81,7 @@ def check(ctx):
     for o in ctx.obs[before:]:
         o.rule = o.rule.replace("C05.a KIND-S2D", "C11.b LABELS-NOT-POSITIONS (C05.a)")
     ctx.guard("C11.d FLOAT-KERNEL", "accumulators", lambda: check_float(ctx))
+    ctx.guard("C11.e AS-2D", "as_2d_array", lambda: check_as_2d(ctx))
     ctx.expect_min("C11.a NORMALISE-DOMINATES-USE", sum(1 for o in ctx.obs if "NORMALISE" in o.rule), 30)
 
 
@@ -329,6 +331,76 @@ def check_converters(ctx):
             ctx.check(not bad, rule, f"{cls.name}.sparse_to_dense", f.loc(), "the dense output is constructed with index= the index handed in (on every path)", found=bad or "index=index", expected="index=index")
 
         ctx.guard(rule, cls.name, go, f.loc())
+
+
+def check_as_2d(ctx):
+    """as_2d_array is where 1-D input (a Series, a vector of cuts) becomes a matrix: a vector becomes ONE COLUMN (n, 1) by
+    default and ONE ROW (1, n) with vector_as_column=False, a matrix is returned as it is, anything with more than two
+    dimensions raises ValueError.  Decided for an operand of unknown rank on every path."""
+    rule = "C11.e AS-2D"
+    q = "skchange.utils.validation.data.as_2d_array"
+    if q not in ctx.P.functions:
+        ctx.undecided(rule, "as_2d_array", "", "as_2d_array not found (anchor vanished)")
+        return
+    f = ctx.P.func(q)
+    from ..symex import Executor
+    from ..values import Cond as _C
+
+    for as_col in (True, False):
+        ex = Executor(ctx.P)
+
+        def thunk(ex, as_col=as_col):
+            x = Num(sym("x"), None, "float", "ndarray", meta={"foreign": True})
+            return ex.call_function(f, [x], {"vector_as_column": Num(None, (), "bool", cond=_C.const(as_col))}, None, None)
+
+        paths = run(ctx, ex, thunk)
+        key = f"vector_as_column={as_col}"
+        seen = set()
+        for p in paths:
+            nd = None
+            facts = {}
+            for c, v in p.facts:
+                if c.t[0] == "cmp" and any(a.kind == "app" and a.args[0] == "ndim" for a in atoms_of(c.t[2]).values()):
+                    lin = c.t[2]
+                    a = [x_ for x_ in atoms_of(lin).values() if x_.kind == "app" and x_.args[0] == "ndim"][0]
+                    k = (lin - NF.atom(a)).as_const()
+                    k2 = (lin + NF.atom(a)).as_const()
+                    # c is  (ndim - m) op 0  or  (m - ndim) op 0
+                    if k is not None:
+                        facts[("ndim-", -k, c.t[1])] = v
+                    elif k2 is not None:
+                        facts[("m-ndim", k2, c.t[1])] = v
+            is1 = facts.get(("ndim-", 1, "==0"))
+            if is1 is None and ("ndim-", 1, "!=0") in facts:
+                is1 = not facts[("ndim-", 1, "!=0")]
+            gt2 = None
+            for (form, m_, op), v in facts.items():
+                if form == "m-ndim" and m_ == 2 and op == "<0":
+                    gt2 = v
+                if form == "ndim-" and m_ == 2 and op == "<=0":
+                    gt2 = not v
+            if is1 is True:
+                seen.add("vector")
+                r = p.value
+                shp = r.shape if isinstance(r, Num) else None
+                if as_col:
+                    ok = p.outcome == "return" and shp is not None and len(shp) == 2 and lift(shp[1]).as_const() == 1 and lift(shp[0]).as_const() is None
+                    want = "(n, 1)"
+                else:
+                    ok = p.outcome == "return" and shp is not None and len(shp) == 2 and lift(shp[0]).as_const() == 1 and lift(shp[1]).as_const() is None
+                    want = "(1, n)"
+                ctx.check(ok, rule, f"{key}|vector", f.loc(), f"a 1-D operand becomes {'one column' if as_col else 'one row'} {want}", found=f"{p.outcome} shape {shp}", expected=want)
+            elif gt2 is True:
+                seen.add("high")
+                ctx.check(p.outcome == "raise" and p.exc.exc_name == "ValueError", rule, f"{key}|more-than-2d", f.loc(), "an operand with more than two dimensions raises ValueError", found=(p.exc.exc_name if p.exc else p.outcome), expected="ValueError")
+            elif is1 is False and gt2 is False:
+                seen.add("matrix")
+                r = p.value
+                same = p.outcome == "return" and isinstance(r, Num) and r.nf is not None and nf_equal(r.nf, sym("x")) and r.shape is None
+                ctx.check(same, rule, f"{key}|matrix", f.loc(), "a 2-D operand is returned unchanged (no reshape)", found=f"{p.outcome} {valkey(p.value)[:60] if p.value is not None else ''} shape {getattr(p.value, 'shape', None)}", expected="x")
+        for k_, what in (("vector", "tests ndim == 1"), ("high", "tests ndim > 2"), ("matrix", "returns a 2-D operand")):
+            if k_ not in seen:
+                ctx.violation(rule, f"{key}|{k_}|reachable", f.loc(), f"no path {what}: the three cases (vector, matrix, more than two dimensions) are not told apart", found=sorted(seen))
 
 
 def check_float(ctx):
